@@ -376,6 +376,8 @@ def vbint.fill (v : Nat) : Filler := fun b i => vbint.fillAux v v b i
 	fmt.Fprintf(&sb, "def UserProp.fill (v : Bytes × Bytes) : Filler := %s\n\n", pairFill)
 
 	sort.Strings(bad)
-	fmt.Fprintf(&sb, "def untranslatedWire : List String := [%s]\n\nend Mq.Gen\n", quoteAll(bad))
+	fmt.Fprintf(&sb, "def untranslatedWire : List String := [%s]\n\n", quoteAll(wireSub(bad, "fixed")))
+	fmt.Fprintf(&sb, "def untranslatedWireVar : List String := [%s]\n\n", quoteAll(wireSub(bad, "var")))
+	fmt.Fprintf(&sb, "def untranslatedWireVb : List String := [%s]\n\nend Mq.Gen\n", quoteAll(wireSub(bad, "vb")))
 	return sb.String(), bad
 }
